@@ -61,4 +61,58 @@ PROPS = {
             "identity across the serialized bridge (serde derive + serde_bytes round trip)",
         ],
     },
+    "C09": {
+        "kani": ["crux_core"],
+        "verus": ["R"],
+        "kani_timeout_quick": 420,
+        "kani_timeout_thorough": 3600,
+        "trusted_base": [
+            "Verus 0.2026.09.13 + Z3 (unit R, extracted register/resume against a Map view)",
+            "Kani 0.68 / CBMC 6.11 (unit A: Request::serialize, Resolve::deserializing, ResolveSerialized::resolve, macro-generated Effect::serialize on the real erased-serde)",
+        ],
+        "assumptions": [
+            "slab 0.4.9 insert/remove/get_mut behave as a partial map with a fresh key on insert (assumed contracts in verus/R/unit.rs)",
+            "lock erasure X4: the registry Mutex is held for the whole body; sequential semantics only (C08 not applicable)",
+            "ResolveSerialized::resolve's arity transition is assumed in unit R and proved by Kani on the real body (unit A, in-place contract)",
+            "Effect::serialize is any function (uninterpreted serialize_spec); the macro-generated one is checked by Kani for a two-variant enum",
+        ],
+        "not_decided": [
+            "equality of typed and serialized HISTORIES (relational, whole-history)",
+            "BridgeWithSerializer::process: the effects.into_iter().map(register).collect() chain and the serializer calls (iterator adapters / erased-serde; not extractable)",
+            "bincode/serde_json encodings of Request<EffectFfi>",
+        ],
+    },
+    "C12": {
+        "kani": ["crux_core"],
+        "verus": ["R"],
+        "kani_timeout_quick": 420,
+        "kani_timeout_thorough": 3600,
+        "trusted_base": [
+            "Verus 0.2026.09.13 + Z3 (unit R: frame of resume also when the response is rejected)",
+            "Kani 0.68 / CBMC 6.11 (unit A: a response that fails to decode never reaches the continuation, on the real erased-serde; format! stubbed)",
+        ],
+        "assumptions": [
+            "bincode and serde_json return Err rather than panic, hang or over-allocate on arbitrary bytes (third-party, for all byte strings - out of reach)",
+            "slab contracts and lock erasure as for C09",
+            "kani::stub(alloc::fmt::format) on the decode-error path (serde builds its error message with format!)",
+        ],
+        "not_decided": [
+            "event path: 'a rejected event leaves the app exactly as it was' sits in BridgeWithSerializer::process (erased_serde::deserialize before core.process_event) - not extractable (iterator chain, dyn serializers)",
+            "no panic / hang / unbounded allocation inside the deserializers for arbitrary bytes",
+            "a response to an id that is NOT outstanding panics (documented FIXME in registry.rs); C12 is read as speaking of outstanding requests",
+        ],
+    },
+    "C13": {
+        "kani": [],
+        "verus": ["R"],
+        "trusted_base": ["Verus 0.2026.09.13 + Z3 (unit R)"],
+        "assumptions": [
+            "slab contracts and lock erasure as for C09",
+        ],
+        "not_decided": [
+            "executor task futures and captured values being dropped (drop glue; QueuingExecutor::run_task uses Mutex, Arc, Context)",
+            "Command task slab release (Command::run_until_settled) - unit Q",
+            "Core field drop order; the global cleared-timer set (cross-call history, F8)",
+        ],
+    },
 }
